@@ -3,8 +3,8 @@ from __future__ import annotations
 
 from harness.core import Prop
 
-TYPE_SQL = {"int": "int", "num102": "number(10,2)", "vc": "varchar", "vc5": "varchar(5)", "vc7": "varchar(7)", "flt": "float", "bool": "boolean"}
-SHAPES = {"sh1": [("a", "vc5", False), ("b", "num102", True)], "sh2": [("a", "vc", False), ("b", "int", False), ("c", "flt", False)], "sh3": [("a", "bool", False)]}
+TYPE_SQL = {"int": "int", "num102": "number(10,2)", "num10": "number(10)", "vc": "varchar", "vc5": "varchar(5)", "vc7": "varchar(7)", "flt": "float", "bool": "boolean"}
+SHAPES = {"sh1": [("a", "vc5", False), ("b", "num102", True)], "sh2": [("a", "vc", False), ("b", "int", False), ("c", "flt", False)], "sh3": [("a", "bool", False), ("b", "num10", False)]}
 USER_SCHEMAS = ("S1", "S2")
 _FS = None
 _N = 0
@@ -93,6 +93,12 @@ class C09(Prop):
         self.nstep += 1
         cur = self.longcur if (self.nstep % 3 or k == "star") else conn.cursor()
         ok = {"res": "ok", "v": []}
+        if k in ("begin", "commit"):
+            self.longcur.execute(k)
+            return ok
+        if k == "nopstmt":
+            cur.execute("set vt_c09 = 1" if op["w"] == "setvar" else "unset vt_c09")
+            return ok
         if k == "touchdb":
             if op["form"] == "connect":
                 _FS.connect(db, "S1").cursor().execute("select 1")
